@@ -38,7 +38,7 @@ def run(rep, work, tier, seed):
     leg_r(rep, work, SPEC, f"conf_{tier}", cfg_text(conf, invariants=INVS), lambda: ScopesDriver(("A", "B")), world=True)
     # a block object prepared by one task and entered by another (Prepare / EnterPrepared / ReEnter): the entering task
     # sees its own state plus what the block supplies, never the state of the place where the object was made
-    prep = dict(NTasks=2, Types=["A", "B"], Vals=[1, 2], MaxDepth=1 if tier == "quick" else 2, MaxOps=4 if tier == "quick" else 5, SupKind="tiny",
+    prep = dict(NTasks=2, Types=["A", "B"], Vals=[1, 2], MaxDepth=1 if tier == "quick" else 2, MaxOps=4, SupKind="tiny",
                 Prep=True, Bug="none")
     leg_m(rep, work, SPEC, f"prep_mc_{tier}", cfg_text(prep, spec="Spec", invariants=INVS, properties=PROPS),
           expect_actions=["Prepare", "EnterPrepared", "ReEnter", "Start"], timeout=3000)
